@@ -139,6 +139,10 @@ def model_ops(C):
         ("json_mutate", lambda a, b, x: (d.to_json()["content"].append(1), C.nodes[x % len(C.nodes)].to_json().update(attrs=1),
                                          [m.to_json()["attrs"].update(zz=1) for m in C.marks])),
         ("check_eq", lambda a, b, x: (d.check(), d.eq(d.copy(d.content)), d.content.find_diff_start(d.content.cut(0, a)))),
+        # appending to a SLICE of a mapping is appending to the slice, not to the mapping it was cut from
+        ("mapping_slice_append", lambda a, b, x: (mg.slice(0, 1).append_map(StepMap([a, 0, 1])), mg.slice(x % 3).append_map(StepMap([b, 1, 0])),
+                                                  LIVE["mirrored"].slice(0).append_map(StepMap([1, 0, 1]), 0),
+                                                  LIVE["mirrored"].slice(1, 2).append_mapping(mg))),
         ("to_dom", lambda a, b, x: str(LIVE["ser"].serialize_fragment(d.content)) if LIVE["ser"] else None),
     ]
 
